@@ -45,8 +45,14 @@ class Decider:
         with tempfile.NamedTemporaryFile('w', suffix='.smt2', delete=False, dir='/verif/.cache') as f:
             f.write(text)
             path = f.name
+        if 'to_ieee_bv' in text or 'FloatingPoint' in text:
+            # z3's fp.to_ieee_bv is not SMT-LIB standard and cvc5 rejects it: floating-point queries are re-run on the
+            # independent z3 5.1 build instead
+            cmd = ['z3-new', f'-T:{int(self.timeout_ms / 1000) + 1}', path]
+        else:
+            cmd = [CVC5, '--lang', 'smt2', f'--tlimit={self.timeout_ms}', path]
         try:
-            p = subprocess.run([CVC5, '--lang', 'smt2', f'--tlimit={self.timeout_ms}', path], capture_output=True, text=True,
+            p = subprocess.run(cmd, capture_output=True, text=True,
                                timeout=self.timeout_ms / 1000 + 30)
             out = (p.stdout + p.stderr).strip()
         except subprocess.TimeoutExpired:
